@@ -22,6 +22,7 @@ import (
 
 	"verif/mc/engine/core"
 	"verif/mc/engine/enum"
+	"verif/mc/engine/envio"
 )
 
 func init() { register("C18", "exploration", runC18) }
@@ -85,7 +86,11 @@ func stop1[T any](seq iter.Seq[T], render func(T) string) stopFn {
 
 // readerStop builds the stopFn of a format's Reader-style iterator over data.
 func readerStop(format string, data []byte) stopFn {
-	mk := func() io.Reader { return bytes.NewReader(data) }
+	return readerStopFrom(format, func() io.Reader { return bytes.NewReader(data) })
+}
+
+// readerStopFrom is readerStop over a reader factory (one fresh reader per run).
+func readerStopFrom(format string, mk func() io.Reader) stopFn {
 	switch format {
 	case "fasta":
 		return func(s int, rf bool) ([]string, int, string) { return stop2(fasta.Reader(mk()), renderFasta)(s, rf) }
@@ -281,6 +286,38 @@ func runC18(r *core.Run) {
 				data = corpusBy(c.Format, c.Corpus)
 			}
 			return checkStops(fmt.Sprintf("%s.Reader on %q", c.Format, trunc(string(data), 100)), readerStop(c.Format, data), false, errLastFormat(c.Format))
+		})
+
+	type faultStop struct {
+		Format   string `json:"format"`
+		Corpus   string `json:"corpus"`
+		At       int    `json:"fault_after_bytes"`
+		Forever  bool   `json:"error_forever"`
+		WithData bool   `json:"error_with_last_bytes"`
+	}
+	core.Clause(r, "readers-on-failing-streams", core.Opts{Rule: "every reader on every medium corpus file whose stream fails at EVERY byte offset (error alone / together with the last bytes, once / forever), stopped at every position of the resulting iteration, both call forms: exactly t callbacks, no panic; non-trivial = at least 2 items"},
+		func(emit func(faultStop) bool) {
+			for _, f := range formats {
+				for i, d := range corpus(f.Name, "medium") {
+					for at := 0; at <= len(d); at++ {
+						for _, fv := range []bool{false, true} {
+							for _, wd := range []bool{false, true} {
+								if !emit(faultStop{f.Name, fmt.Sprint("medium/", i), at, fv, wd}) {
+									return
+								}
+							}
+						}
+					}
+				}
+			}
+		},
+		func(c faultStop) core.Outcome {
+			data := corpusBy(c.Format, c.Corpus)
+			mk := func() io.Reader {
+				return &envio.FaultReader{Data: data, At: c.At, Forever: c.Forever, WithData: c.WithData}
+			}
+			return checkStops(fmt.Sprintf("%s.Reader on %s failing after %d bytes (forever=%v with-data=%v)", c.Format, c.Corpus, c.At, c.Forever, c.WithData),
+				readerStopFrom(c.Format, mk), false, false)
 		})
 
 	scratch := filepath.Join(r.Root, ".scratch", fmt.Sprintf("c18-%d", os.Getpid()))
